@@ -25,7 +25,8 @@ func encodeCase(e []byte, l int) map[string]interface{} {
 
 // C01: NewMnemonicByEntropy == reference encoder, string equality.
 func runC01(c *Ctx) {
-	c.res.Rule = "entropy scopes E_win/E_ham/E_run/E_per/E_byte/E_blk/E_cs (DESIGN 2.4) x 10 languages; one evaluation = one NewMnemonicByEntropy call compared (string equality) with the bit-array reference encoder over golden lists; plus encodings issued right after validations of five kinds in the same goroutine; distinct_nontrivial = number of distinct entropies (all are valid-size inputs that exercise the full encoder)"
+	c.res.Rule = "entropy scopes E_win/E_ham/E_run/E_per/E_byte/E_blk/E_cs (DESIGN 2.4) x 10 languages; one evaluation = one NewMnemonicByEntropy call compared (string equality) with the bit-array reference encoder over golden lists; plus encodings issued right after validations of five kinds in the same goroutine; distinct_nontrivial = number of distinct entropies (all are valid-size inputs that exercise the full encoder) Cold-start phase: for each of the ten languages a fresh child process whose first library call is an encoding (resp. a validation) in that language, followed by all ten languages, compared with the reference (what depends on which language - or the zero value of Language - came first)."
+	defer c.coldStartPhase("enc")
 	c.Assume("golden lists are canonical (digests pinned, english digest independently known)", "Go stdlib crypto/sha256")
 	c.entScopes(func(e []byte) {
 		keep := append([]byte(nil), e...)
@@ -80,7 +81,8 @@ func runC01(c *Ctx) {
 
 // C02: every generated / reference-valid sentence validates.
 func runC02(c *Ctx) {
-	c.res.Rule = "entropy scopes x 10 languages; per (entropy, language): CheckMnemonic and IsMnemonicValid on (a) the implementation's own NewMnemonicByEntropy output and (b) the reference sentence joined by U+0020 and (c) by U+3000; plus NewMnemonic through a scripted source for 5 counts x 10 languages x 64 byte patterns; plus a valid sentence validated right after each of 10 kinds of failing validation (on the same and on a bit-complementary sentence); distinct_nontrivial = distinct entropies"
+	c.res.Rule = "entropy scopes x 10 languages; per (entropy, language): CheckMnemonic and IsMnemonicValid on (a) the implementation's own NewMnemonicByEntropy output and (b) the reference sentence joined by U+0020 and (c) by U+3000; plus NewMnemonic through a scripted source for 5 counts x 10 languages x 64 byte patterns; plus a valid sentence validated right after each of 10 kinds of failing validation (on the same and on a bit-complementary sentence); distinct_nontrivial = distinct entropies Cold-start phase: for each of the ten languages a fresh child process whose first library call is an encoding (resp. a validation) in that language, followed by all ten languages, compared with the reference (what depends on which language - or the zero value of Language - came first)."
+	defer c.coldStartPhase("canon")
 	c.Assume("golden lists are canonical", "only canonical single-separator sentences are demanded to validate")
 	var leadZero [3]int64
 	var lzMu sync.Mutex
